@@ -25,7 +25,7 @@ const W_SAFETY: [u16; NKINDS] = [8, 6, 26, 4, 3, 5, 3, 2, 16, 3, 4, 1, 1, 2, 1, 
 const W_ELECTION: [u16; NKINDS] = [10, 10, 26, 4, 6, 3, 3, 2, 10, 3, 0, 2, 3, 1, 1, 0, 26, 8, 5, 5, 7, 1, 1, 0, 6, 0, 14, 0, 0];
 const W_DURABILITY: [u16; NKINDS] = [6, 5, 26, 3, 3, 4, 2, 2, 16, 2, 0, 1, 1, 2, 1, 3, 28, 10, 6, 6, 8, 2, 0, 0, 6, 0, 12, 0, 0];
 const W_READY: [u16; NKINDS] = [6, 4, 26, 3, 2, 3, 2, 2, 18, 2, 1, 1, 1, 2, 1, 1, 30, 12, 10, 3, 5, 3, 3, 1, 6, 0, 12, 0, 1];
-const W_READS: [u16; NKINDS] = [8, 5, 28, 3, 5, 4, 5, 3, 10, 2, 16, 1, 2, 1, 1, 0, 26, 6, 5, 2, 4, 1, 0, 0, 8, 2, 14, 0, 0];
+const W_READS: [u16; NKINDS] = [8, 5, 28, 3, 5, 4, 5, 3, 10, 6, 16, 1, 2, 1, 1, 0, 26, 6, 5, 2, 4, 1, 0, 0, 8, 2, 14, 0, 0];
 const W_MEMBERSHIP: [u16; NKINDS] = [6, 5, 26, 3, 2, 6, 2, 2, 10, 14, 0, 2, 2, 2, 1, 1, 26, 6, 8, 3, 5, 2, 0, 1, 6, 0, 12, 0, 4];
 const W_FLOW: [u16; NKINDS] = [6, 3, 30, 5, 5, 3, 2, 2, 24, 1, 0, 1, 1, 3, 3, 1, 28, 6, 5, 1, 3, 2, 8, 1, 8, 2, 12, 0, 1];
 const W_SNAPSHOT: [u16; NKINDS] = [6, 4, 26, 4, 5, 5, 4, 3, 18, 3, 0, 1, 1, 6, 2, 4, 26, 6, 6, 2, 5, 12, 1, 3, 6, 0, 12, 0, 0];
@@ -50,6 +50,7 @@ fn base(name: &'static str, weights: [u16; NKINDS]) -> Profile {
         min_voters: 1,
         allow_initial_joint: true,
         mode1_p: 0,
+        sole_p: 0,
     }
 }
 
@@ -173,6 +174,7 @@ pub fn spec_for(id: &str) -> Option<Spec> {
             let mut p = base("reads", W_READS);
             p.force_lease_read = Some(false);
             p.min_voters = 1;
+            p.sole_p = 40;
             Spec {
                 id: "C08",
                 profile: p,
@@ -180,7 +182,7 @@ pub fn spec_for(id: &str) -> Option<Spec> {
                 options: HOLD_F1,
                 rule: "non-trivial = a read state was returned in a case where, between issue and answer, a leader change or a partition occurred, or the read was forwarded, or a heartbeat response was duplicated",
                 nontrivial: |_s, f| has(f, F_READ_ANSWERED_NONTRIVIAL),
-                quick_cases: 24000,
+                quick_cases: 72000,
                 thorough_cases: 1_000_000,
                 ops_quick: (60, 260),
                 ops_thorough: (60, 500),
